@@ -71,3 +71,8 @@ CHECKS["C07"] = dict(level=EX, engine="E3", design_ref="DESIGN.md section 3 C07"
    technique="exhaustive bounded string enumeration in every text slot of small decorated trees; output judged by two independent parsers (expat infoset, libxml2) and by re-import",
    text="For tree shapes up to 4 (5) nodes in three namespace decorations, every content/tail/attribute/extras slot takes every string up to length 2 (3) over the XML-special alphabet plus special words, singly and in all pairs of slots; both exporters' output must parse with expat and libxml2, mirror the tree (names, prefixes resolved to URIs, attributes, qualified attributes, in-scope bindings, order, text up to surrounding XML whitespace) and re-import to the same tree in clean and raw mode.",
    note="Alphabet/length/shape bounds; carriage returns, namespace URIs with markup characters and characters outside XML 1.0 are outside the quantifier; the EML exporter gets a private copy without mixed content.")
+
+CHECKS["C08"] = dict(level=EX, engine="E3", design_ref="DESIGN.md section 3 C08",
+   technique="exhaustive enumeration of documents from a bounded grammar (shapes x per-element features, <= d deviations) x all option sets, against an expat infoset and an independent statement of the whitespace policy; import-export-import stability",
+   text="Every document with up to 4 (5) elements and up to 2 (3) deviating features (prefix declared here / on an ancestor / re-declared, second prefix, unqualified, xml: and prefixed attributes, 18 text/tail values with entities, CDATA and whitespace near-misses, comments between tags) is imported under all 12 clean/collapse/literals settings; names, prefixes, attributes, qualified attributes, in-scope bindings, text and tail are compared with an infoset computed by expat (nothing shared with lxml) and my own whitespace policy; the tree is exported and re-imported and compared again.",
+   note="No default namespaces, PIs, DTDs; text adjacent to comments and Unicode-space edge cases are unspecified and skipped per slot, not per document.")
